@@ -99,7 +99,7 @@ class Runner:
         shutil.rmtree(self.work, ignore_errors=True)
         os.makedirs(self.work)
         self.cpp = cbuild.build_harness("tbgen_harness")
-        self.ml = coqbuild.extract("ExtractTB.v", "tb_driver.ml", "tb_driver")
+        self.ml = coqbuild.extract("ExtractDtm.v", "dtm_driver.ml", "dtm_driver")
         self.failures = []          # (kind, cls, backend, detail dict)
         self.ply_lines = {}
 
@@ -400,8 +400,8 @@ def run(ctx):
                 "duration of a complete generation (so every phase is hit), followed by probes, hash traffic, probes, the next updateTB.")
     ctx.trusted_base = ["Coq 8.16.1 kernel (coqc, vm_compute)",
                         "extraction: ExtrOcamlBasic + ExtrOcamlZInt (Z/N/positive -> OCaml int) + six Extract Constant "
-                        "realisations in coq/Extract/ExtractTB.v (Z.eqb Z.leb Z.ltb Z.div Z.modulo Z.even), for this driver only",
-                        "OCaml 4.13 + drivers/tb_driver.ml (dump indexing, file reading)",
+                        "realisations in coq/Extract/ExtractDtm.v (Z.eqb Z.leb Z.ltb Z.div Z.modulo Z.even), for this driver only",
+                        "OCaml 4.13 + drivers/dtm_driver.ml (dump indexing, file reading)",
                         "harness/tbgen_harness.cpp (placement -> Position, calls of the real generate/updateTB/probeDTM)",
                         "coq/TB/MiniChess.v is the specification of the chess rules for pawnless <= 4-man positions"]
     ctx.assumptions = ["the dump handed to the checker is what probeDTM answers (harness + driver indexing are trusted)",
